@@ -264,6 +264,18 @@ def dyadic_regions():
             return {'cls': 'PolygonPixelRegion',
                     'vertices': [[cx + v[0] for v in vs[:n]],
                                  [cy + v[1] for v in vs[:n]]]}
+        if kind == 'polyq':
+            # a polygon whose slanted edges meet dyadic sample points EXACTLY
+            # and whose edge-crossing arithmetic is exact: the y coordinates
+            # sit on three levels a, a+h, a+2h with h a power of two (every
+            # quotient by an edge's dy is exact), x on the 1/8 lattice.
+            # Samples on an edge are ties - and must be decided the same way
+            # wherever the polygon is moved by whole pixels.
+            h = (0.5, 1.0, 2.0, 4.0)[n % 4]
+            xs = [round(cx) + round(v[0] * 8) / 8.0 for v in vs[:n]]
+            ys = [round(cy) + (int(abs(v[1]) * 64) % 3) * h for v in vs[:n]]
+            return {'cls': 'PolygonPixelRegion', 'vertices': [xs, ys],
+                    'exact_ties': True}
         if kind == 'regpoly':
             return {'cls': 'RegularPolygonPixelRegion', 'center': c,
                     'nvertices': n, 'radius': a, 'angle': an}
@@ -278,7 +290,7 @@ def dyadic_regions():
     off = st.integers(-640, 640).map(lambda k: k / 64.0)
     leaf = st.tuples(
         st.sampled_from(['circle', 'ellipse', 'rect', 'poly', 'regpoly',
-                         'cann', 'eann', 'rann']),
+                         'cann', 'eann', 'rann', 'polyq']),
         d, d, s, s, ang, st.integers(3, 8),
         st.lists(st.tuples(off, off), min_size=8, max_size=8)).map(mk)
     return st.one_of(leaf, leaf, G.compound(leaf, max_depth=2,
@@ -318,7 +330,7 @@ class Translate(Relation):
         r0 = S.build(rs)
         r1 = S.build(translate(rs, tx, ty))
         b0, b1 = r0.bounding_box, r1.bounding_box
-        ctx.label(cls)
+        ctx.label(cls + (':exact-ties' if rs.get('exact_ties') else ''))
         # an extreme that lies on a pixel edge up to rounding (only possible
         # when sin/cos of the angle enter) makes the box itself ambiguous
         from vf.ref.extent import extent
@@ -347,7 +359,8 @@ class Translate(Relation):
             m0 = np.asarray(r0.to_mask(mode, n).data)
             m1 = np.asarray(r1.to_mask(mode, n).data)
             diff = m0 != m1
-            if diff.any() and mode != 'exact':
+            if diff.any() and mode != 'exact' and not (
+                    rs.get('exact_ties') and n in (1, 2, 4)):
                 # pixels with a sub-sample inside the rounding band of the
                 # boundary are decided by rounding, before and after
                 lo, hi, _ = sample_reference(
